@@ -166,12 +166,19 @@ func genAztecCase(t *rapid.T) AztecCase {
 
 // checkAztecRoundTrip returns the reader's result (nil when rejected or excluded).
 func checkAztecRoundTrip(t TB, st *Stats, c AztecCase) *ref.AztecResult {
+	noteCase("C03", "aztec-roundtrip", c)
 	const P, K = "C03", "aztec-roundtrip"
 	if len(c.Payload) == 0 && knownFinding("C03", "F11-aztec-empty-payload") {
 		if st != nil {
 			st.Excluded("F11-aztec-empty-payload")
 		}
 		return nil
+	}
+	if n := len(c.Payload); n >= 5 && n <= 300 {
+		// the call before: a different payload of equal length and equal CRC-32, same parameters
+		tw := c
+		tw.Payload = BStr(crcTwin(c.Payload, n))
+		aztecEncode(tw)
 	}
 	bc, err, pv := aztecEncode(c)
 	if pv != nil {
@@ -183,6 +190,7 @@ func checkAztecRoundTrip(t TB, st *Stats, c AztecCase) *ref.AztecResult {
 	if !aztecLayersValid(c.Layers) {
 		failf(t, P, K, c, "layer request %d outside -4..32 accepted", c.Layers)
 	}
+	disturb("aztec")
 	m, merr := matrix2D(bc)
 	if merr != nil {
 		failf(t, P, K, c, "%v", merr)
@@ -234,6 +242,7 @@ func c03Account(st *Stats, c AztecCase, res *ref.AztecResult) {
 }
 
 func TestC03Rapid(t *testing.T) {
+	foreignWarmup("aztec")
 	st := NewStats("C03", "rapid")
 	runRapid(t, st, func(rt *rapid.T) {
 		c := genAztecCase(rt)
@@ -249,6 +258,7 @@ func TestC03Rapid(t *testing.T) {
 // every single byte value, all ordered pairs of characters from the 5 modes + binary, and the
 // long binary-shift boundary.
 func TestC03Sweep(t *testing.T) {
+	foreignWarmup("aztec")
 	st := NewStats("C03", "sweep")
 	defer st.Flush()
 	ct := &collectTB{}
@@ -300,6 +310,17 @@ func TestC03Sweep(t *testing.T) {
 	for _, n := range []int{30, 31, 32, 61, 62, 63, 64, 100, 2046, 2047} {
 		p := bytes.Repeat([]byte{0xA5}, n)
 		cases = append(cases, AztecCase{Payload: BStr(p), ECC: 10}, AztecCase{Payload: BStr(append([]byte("ab"), append(p, "cd"...)...)), ECC: 10})
+	}
+	// a punctuation pair at every offset around the 2078-byte limit of one binary-shift block, and around 31/62
+	for _, off := range []int{29, 30, 31, 32, 60, 61, 62, 63, 2046, 2047, 2075, 2076, 2077, 2078, 2079, 2080} {
+		for pi, pair := range []string{". ", ", ", ": ", "\r\n"} {
+			if off > 100 && pi > 1 && !thorough() {
+				continue
+			}
+			p := append(bytes.Repeat([]byte{0x9C}, off), pair...)
+			p = append(p, bytes.Repeat([]byte{0x9D}, 12)...)
+			cases = append(cases, AztecCase{Payload: BStr(p), ECC: 5, Layers: 0})
+		}
 	}
 	if thorough() {
 		for _, n := range []int{2077, 2078, 2079, 2080, 2110} {
